@@ -508,6 +508,11 @@ def _noncore_arg_cases(tmpdir):
         ("Sequencer.play_Tracks", lambda: [[O["track"](), O["track"]()], [3, 4], 100], lambda a: Sequencer().play_Tracks(*a), None),
         ("Sequencer.play_Composition", lambda: [O["comp"](), [5, 6], 100], lambda a: Sequencer().play_Composition(*a), None),
         ("Sequencer.play_Composition", lambda: [O["comp"]()], lambda a: Sequencer().play_Composition(*a), None),
+        # too few channels / none at all for the tracks given: whatever the call does about it, the caller's list stays
+        ("Sequencer.play_Composition", lambda: [O["comp"](), [5], 100], lambda a: Sequencer().play_Composition(*a), None),
+        ("Sequencer.play_Composition", lambda: [O["comp"](), [], 100], lambda a: Sequencer().play_Composition(*a), None),
+        ("Sequencer.play_Tracks", lambda: [[O["track"](1), O["track"](1)], [3], 100], lambda a: Sequencer().play_Tracks(*a), None),
+        ("Sequencer.play_Bars", lambda: [[O["bar"](), O["bar"]()], [3], 100], lambda a: Sequencer().play_Bars(*a), None),
         ("Sequencer.play_NoteContainer", lambda: [NoteContainer(["C", "E"]), 2, 90], lambda a: Sequencer().play_NoteContainer(*a), None),
         ("Sequencer.play_Track", lambda: [O["track"](), 1, 120], lambda a: Sequencer().play_Track(*a), None),
         ("tunings.StringTuning", lambda: ["x", "y", ["E-2", "A-2", ["D-3", "D-4"]]], lambda a: tunings.StringTuning(*a), None),
